@@ -15,7 +15,7 @@ R8.6 operator application is strict in both operands (no value-level short-circu
      Operator::eval end in an error, whatever the type or value of the other operand and in either position.
 """
 import tables
-from absint import Interp, SYM, C, ADT, OK, ERR, fmt, is_adt, Budget
+from absint import Interp, SYM, C, ADT, OK, ERR, Fork, fmt, is_adt, Budget, has_subterm
 from mirlib import (short, path_endswith, callee_matches, op_place, resolve_place, def_roots, question_mark, switch_on_discriminant, continue_payload_local,
                     is_local, same_place)
 
@@ -156,7 +156,91 @@ def _operator_field_reads(f):
     return out
 
 
+def evaluator_sem(ctx, prog, f, name, opname):
+    """The evaluator decided by interpretation: the body is interpreted on a node with 0..3 concrete children; every evaluation of a child
+    (any crate function receiving that child) is observed and made to succeed or fail. Required: children are evaluated in order,
+    each exactly once, with the caller's context; the first failure is returned and nothing else is evaluated after it; when all
+    succeed Operator::eval[_mut] is applied once to the operator, the collected values in order and the context, and its result
+    is returned. Whether the walk is a for loop, an iterator chain or a generic helper shared between the two evaluators does not
+    matter. Returns True when the interpretation was conclusive (obligations reported), False when it was not (structural rule applies)."""
+    inst = 'Node::' + name
+    node_adt = prog.adt('tree::Node')
+    if node_adt is None:
+        return False
+    results = []
+    counter = [0]
+    for n in range(0, 4):
+        kids = tuple(SYM('child%d' % i) for i in range(n))
+        selfv = ADT(node_adt['path'], 0, 'Node', [SYM('op'), ('tuple', kids)])
+
+        def hook(it, fn, t, args, kids=kids):
+            c = t['callee']
+            if c.get('local') and args and args[0] in kids:
+                i = kids.index(args[0])
+                return Fork([OK(SYM('value%d' % i)), ERR(SYM('error%d' % i))])
+            if c.get('local') and c['name'] == opname and 'Operator' in c['def']:
+                return ('app', 'Operator::' + opname, tuple(args))
+            if not c.get('local') and c['name'] in ('len', 'is_empty', 'capacity'):
+                # sizes stay unknown: the walk is interpreted on short child lists, so a decision that depends on how many children
+                # or values there are must show up as a fork (and then as a deviating outcome), not be settled by the small example
+                counter[0] += 1
+                return ('app', '%s#%d' % (c['name'], counter[0]), tuple(args))
+            return None
+        try:
+            ps = Interp(prog, hook=hook, max_depth=6, vec_model=True, max_steps=100000, loop_bound=6).paths(f, [selfv, SYM('context')])
+        except Budget:
+            return False
+        results.append((n, kids, ps))
+    # conclusive only if every path is one of the recognisable outcomes (otherwise leave it to the structural rule)
+    verdicts = []
+    for n, kids, ps in results:
+        seen_fail = set()
+        seen_ok = 0
+        for ret, eff in ps:
+            if ret == ('diverge',):
+                continue
+            evals = [(kids.index(e[2][0]), e[2]) for e in eff if not e[0].startswith('<') and e[2] and e[2][0] in kids and 'children' not in e[0].split('::')[-1]]
+            ops = [e for e in eff if not e[0].startswith('<') and e[0].split('::')[-1] == opname and 'Operator' in e[0]]
+            order = [i for i, _a in evals]
+            ctx_ok = all(any(has_subterm(a, SYM('context')) for a in args[1:]) for _i, args in evals)
+            if is_adt(ret, 'result::Result', 'Err') and ret[4][0][0] == 'sym' and ret[4][0][1].startswith('error'):
+                k = int(ret[4][0][1][5:])
+                good = order == list(range(k + 1)) and not ops and ctx_ok
+                verdicts.append((good, n, 'child %d fails' % k, order, len(ops)))
+                seen_fail.add(k)
+            elif ret[0] == 'app' and ret[1] == 'Operator::' + opname:
+                vals = ret[2][1] if len(ret[2]) > 1 else None
+                good = order == list(range(n)) and len(ops) == 1 and ctx_ok and ret[2][0] == SYM('op') and vals == ('tuple', tuple(SYM('value%d' % i) for i in range(n))) and len(ret[2]) == 3 and ret[2][2] == SYM('context')
+                verdicts.append((good, n, 'all children succeed', order, len(ops)))
+                seen_ok += 1
+            else:
+                return False
+        if seen_fail != set(range(n)) or seen_ok != 1:
+            verdicts.append((False, n, 'outcome set (failing children seen %s, success paths %d)' % (sorted(seen_fail), seen_ok), [], 0))
+    bad = [v for v in verdicts if not v[0]]
+    ctx.check(not [v for v in bad if 'fails' in v[2] or 'outcome' in v[2]], 'R8.2', inst + ':first-error-wins', 'error-path',
+              'children are evaluated in order, each once, and the first failing child\'s error is returned without evaluating anything after it (deviations: %s)' % [(v[1], v[2], v[3]) for v in bad if 'fails' in v[2] or 'outcome' in v[2]][:3], span=f.span)
+    ctx.check(not [v for v in bad if 'succeed' in v[2]], 'R8.3', inst + ':apply', 'apply',
+              'when all children succeed Operator::%s is applied once to the operator, the collected values in order and the context, and its result is returned (deviations: %s)' % (opname, [(v[1], v[3], v[4]) for v in bad if 'succeed' in v[2]][:3]), span=f.span)
+    for suffix, rule in ((':callees', 'R8.1'), (':recursive-call', 'R8.2'), (':child', 'R8.2'), (':context', 'R8.2'), (':collect', 'R8.3'), (':no-short-circuit', 'R8.3')):
+        ctx.check(not bad, rule, inst + suffix, 'sem', 'decided by interpretation on nodes with 0-3 children (all %d outcomes as required)' % len(verdicts), span=f.span)
+    names = set()
+    stack = [f]
+    seen_f = set()
+    while stack:
+        g = stack.pop()
+        if g.path in seen_f:
+            continue
+        seen_f.add(g.path)
+        for _b, t in g.calls():
+            names.add(t['callee']['name'])
+    ctx.check('clone' not in names, 'R8.5', inst + ':no-context-clone', 'clone', 'the evaluator does not clone or restore the context: effects of evaluated children persist', span=f.span)
+    return True
+
+
 def evaluator(ctx, prog, f, name, opname):
+    if evaluator_sem(ctx, prog, f, name, opname):
+        return
     if evaluator_collect(ctx, prog, f, name, opname):
         return
     inst = 'Node::' + name
